@@ -14,7 +14,7 @@ def build():
 def run(tier, deadline):
     t0 = time.time(); build()
     env = dict(os.environ, CAT_LIB=vbuild.build("prod"))
-    N = 4 if tier == "quick" else 5
+    N = 4 if tier == "quick" else 6
     jobs = [[loc, str(N), str(i), "8"] for loc in ("C", "C.UTF-8") for i in range(8)]
     jobs += [[loc, "3" if tier == "quick" else "4", str(i), "4"] for loc in ("C>C.UTF-8", "C.UTF-8>C") for i in range(4)]      # locale histories
     jobs += [[loc, "sweep", str(i), "8"] for loc in (("C.UTF-8",) if tier == "quick" else ("C.UTF-8", "C", "C>C.UTF-8")) for i in range(8)]   # every code point
